@@ -30,7 +30,7 @@ ASSUMPTIONS = [
 TYPES = ['date', 'month', 'week', 'time', 'datetime-local', 'number', 'range']
 
 
-def plan(tier, seed):
+def _plan0(tier, seed):
     units = []
     Y = 12000
     step = 150 if tier == 'quick' else 200
@@ -41,6 +41,17 @@ def plan(tier, seed):
         units.append({'kind': 'triples', 'seed': seed * 4001 + i, 'n': 2500 if tier == 'quick' else 12000})
     for i in range(16 if tier == 'quick' else 80):
         units.append({'kind': 'multi', 'seed': seed * 4001 + 900 + i, 'n': 250 if tier == 'quick' else 1200})
+    return units
+
+
+def plan(tier, seed):
+    """... plus the shared 'lazy' units: iselect consumed step by step while the caller edits, between two items, exactly what
+    this property's pseudo-classes depend on (vlib/lazy.py; the rest of the iteration must be what the selector designates on
+    the tree as it is now)."""
+    units = _plan0(tier, seed)
+    themes = ['range']
+    k = 16 if tier == 'quick' else 160
+    units += [{'kind': 'lazy', 'theme': themes[i % len(themes)], 'seed': seed * 65521 + i, 'n': 60 if tier == 'quick' else 200} for i in range(k)]
     return units
 
 
